@@ -92,15 +92,21 @@ func newFixtureLog(sid, name string, keyID int, seed int64, dir string) (*fixtur
 
 func (fl *fixtureLog) newPending() *ctlog.PendingLogEntry {
 	e := &ctlog.PendingLogEntry{}
-	e.Certificate = make([]byte, 16+fl.r.Intn(33))
+	e.Certificate = make([]byte, 8+fl.r.Intn(13))
 	fl.r.Read(e.Certificate)
 	if fl.r.Intn(5) < 2 {
 		e.IsPrecert = true
 		fl.r.Read(e.IssuerKeyHash[:])
-		e.PreCertificate = make([]byte, 8+fl.r.Intn(33))
+		e.PreCertificate = make([]byte, 4+fl.r.Intn(9))
 		fl.r.Read(e.PreCertificate)
 	}
-	for k := fl.r.Intn(3); k > 0; k-- {
+	k := 0
+	if x := fl.r.Intn(20); x < 5 {
+		k = 1
+	} else if x == 5 {
+		k = 2
+	}
+	for ; k > 0; k-- {
 		e.Issuers = append(e.Issuers, fl.issuer[fl.r.Intn(len(fl.issuer))])
 	}
 	return e
